@@ -99,6 +99,18 @@ CHECKS = {
         technique="TLA+ library (Dremel) as the oracle in a TLC trace monitor + TLC-generated values + model of the run scanner",
         design_ref="DESIGN.md section 5 C03",
     ),
+    "C13": dict(
+        level="fault_enumeration",
+        text="Corrupt.tla models which load routine brings a page into memory (readPage in the stream vs the lazy "
+             "readDictionary after a seek) and whether it verifies the checksum; TLC checks that no page is delivered "
+             "when its body or its dictionary is corrupted. The seek/read histories of the PageReader model's edge "
+             "cover are crossed with faults (column, data or dictionary page, first/middle/last body byte, bit or "
+             "burst) and executed on eight reader kinds; CorruptMon.tla judges every read in TLC.",
+        note="Faults in row group 0 of small files; 3 positions x 2 shapes per page in the quick tier (a seeded sample), "
+             "more in thorough; header/footer flips are outside the statement.",
+        technique="TLA+ load-routine model (TLC exhaustive) + model-generated histories x enumerated faults on the code + TLC trace monitor",
+        design_ref="DESIGN.md section 5 C13",
+    ),
     "C17": dict(
         level="model_checking",
         text="Reset.tla models which slice-typed footer fields alias the live column writers once a row group is "
